@@ -32,9 +32,20 @@ Inductive outcome :=
 | CancelledBeforeEntry (* the context handed to Coordinator.Execute is ALREADY cancelled (or past its
                       deadline) when Execute is called: the request goes through admission, the cleanup
                       defer is registered, the wait loops return at once; Run is never called *)
-| ConstructorFails. (* the constructor returns an error - the key share cannot be read (file missing,
+| ConstructorFails  (* the constructor returns an error - the key share cannot be read (file missing,
                       corrupt, unreadable) or, FROST signing, the tweak is malformed: no process
                       exists, Coordinator.Execute is never called *)
+(* ABNORMAL TERMINATION.  A method of the process panics while Coordinator.Execute is using it.  A
+   panic raised in a goroutine of Execute's task pools is re-raised by the pool in Execute itself; in
+   every case it travels up through Execute AFTER the deferred cleanup (cancel, CloseSession, pending
+   := false, Stop on every process) has run, and goes on to Execute's caller. *)
+| PanicBeforeStart  (* admitted; ValidCoordinators / Ready / StartParams panics, or the call of Run
+                      panics before the process's own Run is entered: the process never begins *)
+| PanicInRunLate    (* Run is called, the process begins (an ECDSA keygen takes the lock) and then
+                      panics (FROST resharing of a share-less relayer that is sent start parameters
+                      without verification shares: assignment to entry in nil map; ECDSA resharing
+                      with an old subset of unknown peers: index out of range), or its goroutine exits *)
+| PanicAfterRun.    (* Run is called, begins and returns an error; Retryable() panics *)
 
 (* observable events: mutex, share access, extent of Run *)
 Inductive ev := L | U | Get | Store | RunBegin | RunEnd.
@@ -71,8 +82,12 @@ Definition feasible_in (sh : share) (k : kind) (o : outcome) : bool :=
    | _, _ => false
    end).
 
+(* the process's own Run is entered (and takes whatever lock it takes) *)
 Definition run_called (o : outcome) : bool :=
-  match o with ParamsRejected | RanFailed | RanSucceeded | Rerun => true | _ => false end.
+  match o with
+  | ParamsRejected | RanFailed | RanSucceeded | Rerun | PanicInRunLate | PanicAfterRun => true
+  | _ => false
+  end.
 
 (* Run is entered a second time on the same object *)
 Definition run_again (o : outcome) : bool :=
@@ -115,6 +130,31 @@ Definition session_events (v : variant) (k : kind) (o : outcome) : list ev :=
             the lock nor the share *)
          (if run_again o then run_events k o else []) ++ stop_events v k (run_called o)
   end.
+
+(* --- a STARTED Run that fails: the class of the error decides whether the coordinator runs the
+   process again (tss/coordinator.go: `if !tssProcesses[0].Retryable() { return err }`, then
+   handleError: CoordinatorError / CommunicationError / tss.Error -> retry (bully election, start ->
+   Run on the SAME objects), SubsetError -> wait for another start message -> Run, anything else ->
+   return) --- *)
+Inductive failure := FPlain | FComm | FTss | FSubset | FCoordinator.
+
+Definition retryable_failure (f : failure) : bool :=
+  match f with FPlain => false | _ => true end.
+
+(* only the signing kinds are Retryable (tss/*/signing: `return true`; keygen, resharing: false);
+   [answered]: the retry gets as far as calling Run (the peers answer the new coordinator's initiate
+   message / a second start message arrives) before the session is ended *)
+Definition retried (k : kind) (f : failure) (answered : bool) : bool :=
+  is_signing k && retryable_failure f && answered.
+
+Definition failed_outcome (k : kind) (f : failure) (answered : bool) : outcome :=
+  if retried k f answered then Rerun else RanFailed.
+
+(* the hypothetical coordinator / process that retries a NON-retryable kind (Retryable() = true for
+   a keygen, or a coordinator that retries every process on a communication error): Run is entered a
+   second time on the same object *)
+Definition retried_anyway_events (k : kind) : list ev :=
+  ctor_events k ++ run_events k RanFailed ++ run_events k RanFailed ++ stop_events New k true.
 
 (* --- Go's sync.Mutex --- *)
 Inductive mres := MOk (held : bool) | MFatal | MBlocked.
